@@ -65,7 +65,9 @@ fn twin(h: &History, recs: &[StepRec]) -> Option<(History, Vec<(usize, usize)>)>
 }
 
 fn norm(trace: &[Ev], drop_deliveries: bool) -> Vec<Ev> {
-    trace.iter().filter(|e| !matches!(e, Ev::Resp(s) if s == "NoUpdate") && !(drop_deliveries && matches!(e, Ev::Deliver { .. }))).cloned().collect()
+    // "no update" is the report for a frame that is not accepted; on the nb front-end a packet that does not
+    // fit the device's radio buffer is reported as BufferTooSmall while the window stays open
+    trace.iter().filter(|e| !matches!(e, Ev::Resp(s) if s == "NoUpdate" || s == "Err(State(BufferTooSmall))") && !(drop_deliveries && matches!(e, Ev::Deliver { .. }))).cloned().collect()
 }
 
 pub fn judge_pair(h: &History) -> Result<(u32, bool), Failure> {
